@@ -3,11 +3,12 @@ use vmon::refm::install_quiet_panic_hook;
 use vmon::report::{Args, Report};
 
 fn main() {
-    if std::env::var_os("VMON_NOOP").is_some() {
-        // used by `./check build miri` to compile the binary under the interpreter
+    let args = Args::parse();
+    if args.get("noop").is_some() {
+        // used by `./check build miri` to compile the binary under the interpreter (an argument, not an
+        // environment variable: cargo-miri replays the build-time environment at run time)
         return;
     }
-    let args = Args::parse();
     let out = args.str("out", "-");
     if args.u64("quiet-panics", 1) != 0 {
         install_quiet_panic_hook();
